@@ -1,6 +1,7 @@
 """C19  Safety analysis is total on every pickle that decompiles."""
 import io
 import json
+import traceback
 
 from vlib import asm, cells, diff, vocab
 from vlib.runner import Failure, ShardResult, hypothesis_search
@@ -14,10 +15,13 @@ RULE = (
     "_run_code, execWrapper) x resolving opcode (GLOBAL, STACK_GLOBAL in 3 string encodings, "
     "STACK_GLOBAL from memo, INST) x calling opcode (none, REDUCE x3 arg shapes, OBJ, NEWOBJ, "
     "NEWOBJ_EX, INST) x disposal x framing, plus Hypothesis programs from the typed assembler "
-    "over the same vocabulary. Oracle, for every program whose decompile succeeds: check_safety "
+    "over the same vocabulary, the same with any stack value allowed where the VM wants a "
+    "callable (programs a static decompiler accepts although the VM would fail), byte-level "
+    "mutations of those, and a family with 1-32 findings. Oracle, for every program whose decompile succeeds: check_safety "
     "returns; every finding has a Severity and a non-empty message; json.dumps(to_dict()) "
     "succeeds and round-trips; for the harmless sub-family (sink / getpid / eval / len) the "
-    "checked loader raises UnsafeFileError whose info equals to_dict(). Non-trivial = attribute "
+    "checked loader raises UnsafeFileError whose info equals to_dict(), before and after the error "
+    "has been rendered with str/repr/traceback. Non-trivial = attribute "
     "name is special-cased by some rule and the module is not that rule's module; distinct = "
     "distinct byte strings."
 )
@@ -40,6 +44,11 @@ _RULE_HOME = {
     "runstring": ("numpy.testing._private.utils",), "_load_from_bytes": ("torch.storage",),
     "system": ("os", "posix", "nt"), "_run_code": ("runpy",), "execWrapper": (),
 }  # fmt: skip
+
+
+def _short(x):
+    r = repr(x)
+    return r if len(r) < 600 else r[:300] + " ... " + r[-300:]
 
 
 def _listify(x):
@@ -110,8 +119,23 @@ def judge(data, loader_check=False):
                     return (
                         Failure(
                             case,
-                            f"UnsafeFileError.info for {data!r} (threshold {T.name}) differs from "
-                            f"the report: {e.info!r} vs {td!r}",
+                            f"UnsafeFileError.info for {data[:200]!r} (threshold {T.name}) differs from "
+                            f"the report: {_short(e.info)} vs {_short(td)}",
+                        ),
+                        klass,
+                    )
+                # the error is printed / logged by whoever catches it; it still has to carry the
+                # same report afterwards
+                try:
+                    str(e), repr(e), "".join(traceback.format_exception_only(type(e), e))
+                except Exception as e2:  # noqa: BLE001
+                    return Failure(case, f"rendering the UnsafeFileError for {data[:200]!r} raises {e2!r}"), klass
+                if _listify(e.info) != _listify(td):
+                    return (
+                        Failure(
+                            case,
+                            f"UnsafeFileError.info for {data[:200]!r} (threshold {T.name}) no longer equals "
+                            f"the report once the error has been rendered: {_short(e.info)} vs {_short(td)}",
                         ),
                         klass,
                     )
@@ -153,12 +177,52 @@ def _cells(tier):
     )
 
 
+OS_NAMES = ("getpid", "getppid", "getuid", "getgid", "getcwd", "cpu_count", "times", "uname", "sep", "name",
+            "curdir", "pardir", "linesep", "devnull", "extsep", "fspath", "strerror", "urandom", "path", "altsep",
+            "pathsep", "defpath", "getcwdb", "geteuid", "getegid", "getpgrp", "getgroups", "ctermid", "umask",
+            "get_terminal_size", "getloadavg", "cpu_count", "fsencode", "fsdecode", "get_exec_path", "stat")  # fmt: skip
+
+
+def many_findings(n, call):
+    """n distinct globals of `os` resolved (never called unless call: then os.getpid() once):
+    a report of n+ findings, harmless even if a broken loader ran it"""
+    names = list(dict.fromkeys(OS_NAMES))[:n]
+    body = b"(" + b"".join(f"cos\n{x}\n".encode() for x in names)
+    if call:
+        body += b"cos\ngetpid\n)R"
+    return body + b"t."
+
+
+def mutate(draw, st, b):
+    """byte-level mutations that keep most of a program intact"""
+    b = bytearray(b)
+    kind = draw(st.sampled_from(["flip", "opswap", "delete", "dup", "truncate_stop"]))
+    if len(b) < 2:
+        return bytes(b)
+    i = draw(st.integers(0, len(b) - 2))
+    if kind == "flip":
+        b[i] ^= 1 << draw(st.integers(0, 7))
+    elif kind == "opswap":
+        b[i] = draw(st.sampled_from(list(b"RobQ\x81\x92\x93)(.0122NK]}tle\x85\x86\x90\x91\x94h")))
+    elif kind == "delete":
+        del b[i]
+    elif kind == "dup":
+        j = draw(st.integers(i, min(len(b) - 1, i + 6)))
+        b[i:i] = b[i:j]
+    else:
+        return bytes(b[:i]) + b"."
+    return bytes(b)
+
+
 def shards(tier):
     n = 16
     out = [{"kind": "cells", "tier": tier, "part": i, "nparts": n} for i in range(n)]
     out += [{"kind": "harmless", "part": i, "nparts": 4} for i in range(4)]
+    out += [{"kind": "many"}]
     per = 300 if tier == "quick" else 5000
     out += [{"kind": "random", "n": per, "idx": i} for i in range(12)]
+    out += [{"kind": "untyped", "n": per, "idx": i} for i in range(8)]
+    out += [{"kind": "mutated", "n": per * 2, "idx": i} for i in range(8)]
     return out
 
 
@@ -189,6 +253,15 @@ def run_shard(spec, seed):
                 break
         res.exhaustive = True
         res.extra["product_cells"] = total
+    elif spec["kind"] == "many":
+        for n in (1, 2, 5, 8, 12, 16, 24, 32):
+            for call in (False, True):
+                data = many_findings(n, call)
+                f, klass = judge(data, loader_check=True)
+                res.note(data, True, klass=[klass, "many-findings"], sample={"hex": data.hex()[:200], "imports": n})
+                if f is not None:
+                    res.failures.append(f)
+                    return res
     else:
         globs = tuple(
             (m, n)
@@ -199,12 +272,33 @@ def run_shard(spec, seed):
                 ("datetime", "attrgetter"), ("pandas", "runstring"), ("code", "_run_code"),
             )
         )  # fmt: skip
-        prof = asm.full_profile(globs)
+        if spec["kind"] == "random":
+            prof = asm.full_profile(globs)
 
-        def body(prog):
-            f, klass = judge(prog.data)
-            res.note(prog.data, prog.ncalls > 0, klass=klass, sample={"random": prog.data.hex()})
-            return f
+            def body(prog):
+                f, klass = judge(prog.data)
+                res.note(prog.data, prog.ncalls > 0, klass=klass, sample={"random": prog.data.hex()})
+                return f
 
-        hypothesis_search(asm.programs(prof, max_len=24), body, seed, spec["n"], res, batch=500)
+            hypothesis_search(asm.programs(prof, max_len=24), body, seed, spec["n"], res, batch=500)
+        else:
+            # "whenever a pickle can be decompiled": that includes programs the real VM would
+            # reject at run time (a constant where a callable is expected, ...), which a static
+            # decompiler accepts
+            from hypothesis import strategies as st
+
+            prof = asm.full_profile(globs + (("builtins", "len"), ("collections", "OrderedDict.fromkeys")),
+                                    any_callee=True, unique_attr_names=False, no_mutation_after_capture=False)  # fmt: skip
+            progs = asm.programs(prof, max_len=16)
+            if spec["kind"] == "untyped":
+                strat = progs.map(lambda p: p.data)
+            else:
+                strat = st.composite(lambda draw: mutate(draw, st, draw(progs).data))()
+
+            def body(data):
+                f, klass = judge(data)
+                res.note(data, klass != "refused", klass=[klass, spec["kind"]], sample={spec["kind"]: data.hex()})
+                return f
+
+            hypothesis_search(strat, body, seed, spec["n"], res, batch=500)
     return res
